@@ -3,11 +3,11 @@ import ScyllaVerif.Model.ReadPrim
 C08 — model of the two column-type parsers that read type descriptions sent by the server.
 
 * `deserType`  ← `deser_type_generic` (`scylla-cql/src/frame/response/result.rs:523-645`, after the `fix:` commits
-  c6419cc (depth limit `MAX_TYPE_NESTING_DEPTH = 128`) and 7322667 (capacities capped by the remaining buffer)).
+  c6419cc (depth limit `MAX_TYPE_NESTING_DEPTH = 128`) and 177d90d (tuple / UDT field vectors are not pre-allocated)).
   The Rust `depth` argument is `129 - fuel`: `depth > 128` ⇔ `fuel = 0`.  Structural recursion on `fuel`
   (nesting) and on the element count (`loopN`): this is the termination proof.
 * `customParse` ← `CustomTypeParser::parse` (`custom_type_parser.rs`, after 412bc6c (iterator fused after its first
-  error) and c6419cc (depth limit in `do_parse`)).  The parser state is the remaining input (bytes; ASCII only — a
+  error), c6419cc (depth limit in `do_parse`) and 3ffdc84 (`get_n_type_parameters` collects the parameters once)).  The parser state is the remaining input (bytes; ASCII only — a
   string containing a byte ≥ 0x80 is reported as `unmodelled`, because `char::is_alphanumeric/is_whitespace` are
   Unicode tables the model does not carry).
 -/
@@ -150,8 +150,8 @@ def typeParameters (parse : CtParse) (frozen : Bool) (s : Bytes) : Except String
     | none => .error "unexpchar"
     | some s' => .ok (paramsLoop parse frozen (s'.length + 1) s')
 
-/-- `get_n_type_parameters::<N>`: `collect_array` succeeds iff the iterator yields exactly `N` items (a failed item
-ends it); otherwise the parameters are counted again from the saved parser (`count()` counts failed items too). -/
+/-- `get_n_type_parameters::<N>`: all items of the iterator are collected (a failed item ends it); exactly `N` items
+are required, otherwise `InvalidParameterCount { actual = number of items, expected = N }`. -/
 def nTypeParameters (parse : CtParse) (frozen : Bool) (n : Nat) (s : Bytes) :
     Except String (List (Except String Ty) × Bytes) :=
   match typeParameters parse frozen s with
@@ -309,8 +309,7 @@ def deserType : Nat → M Ty
       let ks ← tag "type.udtks" readString
       let name ← tag "type.udtname" readString
       let n ← tag "type.udtcount" readShort
-      let rem ← remaining
-      allocReq (min n (rem / 4))
+      -- `Vec::new()`: no capacity request from the declared count (fix 177d90d)
       let fields ← loopN n (do
         let fname ← tag "type.udtfield" readString
         let t ← deserType fuel
@@ -318,8 +317,6 @@ def deserType : Nat → M Ty
       pure (.udt false ks name fields)
     | 0x0031 => do
       let n ← tag "type.tuplelen" readShort
-      let rem ← remaining
-      allocReq (min n (rem / 2))
       let ts ← loopN n (deserType fuel)
       pure (.tuple ts)
     | id =>
